@@ -41,7 +41,7 @@ LEVEL = "exploration"
 ENGINE = "sansio"
 BUDGET = {"quick": (260, 20), "thorough": (12000, 230)}
 WORKERS = {"quick": 4, "thorough": 16}
-REQUIRED = ["obj", "wire", "failed", "failed.flow_conn", "wire.direct", "wire.via_connect", "wire.via_plain", "wire.tls", "attrs", "guard.address", "guard.via", "reuse.same_conn", "fault.connect_failed", "fault.tls_failed", "fault.server_close", "client.h1", "client.h2"]
+REQUIRED = ["obj", "wire", "rewrite.server_conn_replaced", "failed", "failed.flow_conn", "wire.direct", "wire.via_connect", "wire.via_plain", "wire.tls", "attrs", "guard.address", "guard.via", "reuse.same_conn", "fault.connect_failed", "fault.tls_failed", "fault.server_close", "client.h1", "client.h2"]
 TECHNIQUE = "runtime monitoring: sans-io history exploration, destination table at the request hook vs connection attributes at SendData time and peer-side sightings (real TLS / proxy / h2 peers)"
 RULE = (
     "case = (mode, client protocol h1|h2, history of 2-12 requests over <=4 destinations drawn from hosts x ports x scheme x via, "
@@ -237,7 +237,7 @@ def run_case(ctx, tctx, chain):
     flows = {}
     kinds = set()
     guard_viol = []
-    counts = {"ga": 0, "gv": 0, "policy_guard": 0}
+    counts = {"ga": 0, "gv": 0, "policy_guard": 0, "replaced": 0}
 
     def probe(conn):
         if conn.state is not ConnectionState.OPEN:
@@ -277,6 +277,7 @@ def run_case(ctx, tctx, chain):
                         f.server_conn.via = val
                     elif field == "replace":
                         f.server_conn = mconn.Server(address=f.server_conn.address)
+                        counts["replaced"] += 1
                         if val is not None:
                             f.server_conn.via = val
                     else:
@@ -382,6 +383,7 @@ def run_case(ctx, tctx, chain):
     ctx.count("guard.address", counts["ga"])
     ctx.count("guard.via", counts["gv"])
     ctx.count("guard.in_policy_raised", counts["policy_guard"])
+    ctx.count("rewrite.server_conn_replaced", counts["replaced"])
     for g in guard_viol[:3]:
         ctx.violation("open-connection-attribute-assignment:" + g[1], {**witness, "attribute": g[0], "conn": g[2]}, classify({"kind": "guard"}))
 
